@@ -672,17 +672,21 @@ def process_expand(gen, sec, vu_path):
             text += '\nimpl %s { pub closed spec fn %s(&self) -> %s { self.%s } }\n' % (tyname, an, fty, fld)
     gen.em.emit_text('// ---- R3 expansion of %s!(%s ..)  (%s:%d)' % (name, tyname, relfile, line), {'kind': 'gen'})
     cur_label, cur_props = None, None
+    xserves = None
+    for d in sec['dirs']:
+        if d['name'] == 'serves':
+            xserves = d['arg'].split()
     for l in text.split('\n'):
         mm = re.match(r'\s*//#\s*([\w.-]+)\s*(?:\[([^\]]*)\])?', l)
         if mm:
             cur_label = mm.group(1)
             cur_props = mm.group(2).split() if mm.group(2) else None
             gen.labels.append({'label': cur_label, 'props': cur_props or gen.serves, 'item': tyname + '::new'})
-        gen.em.lines.append((l, {'kind': 'repo', 'file': 'jmespath/src/' + relfile, 'line': line, 'item': tyname + '::new', 'serves': None,
+        gen.em.lines.append((l, {'kind': 'repo', 'file': 'jmespath/src/' + relfile, 'line': line, 'item': tyname + '::new', 'serves': xserves,
                                  'label': cur_label, 'label_props': cur_props}))
     gen.items.append({'item': '%s!(%s)' % (name, tyname), 'short': tyname + '::new', 'file': 'jmespath/src/' + relfile,
                       'lines': [line, src.count('\n', 0, c) + 1], 'sha256_16': hashlib.sha256(src[m.start():c].encode()).hexdigest()[:16],
-                      'external': False, 'has_contract': any(d['name'] == 'contract-new' for d in sec['dirs']), 'serves': None})
+                      'external': False, 'has_contract': any(d['name'] == 'contract-new' for d in sec['dirs']), 'serves': xserves})
 
 
 def expand_fragments(secs, seen=()):
